@@ -188,13 +188,13 @@ def gen_capital(rng, t, profile):
     return cap, K
 
 
-def _impact_pairs(rng, inds, K, conv, nmax=3, frac_hi=0.6):
+def _impact_pairs(rng, inds, K, conv, nmax=3, frac_hi=0.6, frac_lo=0.02):
     n = rng.randint(1, min(nmax, len(inds)))
     cand = [k for k in range(len(inds)) if K[k] > 0]
     ks = rng.sample(cand, min(n, len(cand)))
     pairs = []
     for k in sorted(ks):
-        frac = rng.uniform(0.02, frac_hi)
+        frac = _logu(rng, frac_lo, frac_hi) if frac_lo < 0.01 else rng.uniform(frac_lo, frac_hi)
         pairs.append([list(inds[k]), K[k] * frac * conv])
     return pairs
 
@@ -220,11 +220,14 @@ def gen_event(rng, t, m, K, horizon, kind=None, profile=None):
         eff = 1 if emf is None else emf
         e["emf"] = emf
         conv = mu / eff  # event units per model unit
-        e["impact"] = _impact_pairs(rng, inds, K, conv, frac_hi=profile.get("frac_hi", 0.5))
+        e["impact"] = _impact_pairs(rng, inds, K, conv, frac_hi=profile.get("frac_hi", 0.5), frac_lo=profile.get("frac_lo", 0.02))
         if rng.random() < profile.get("p_house", 0.4):
             hh = rng.sample(fds, rng.randint(1, min(2, len(fds))))
             tot = sum(v for _, v in e["impact"])
-            e["households"] = [[list(h), tot * rng.uniform(0.1, 0.8)] for h in sorted(hh)]
+            lo_h, hi_h = profile.get("house_mult") or (0.1, 0.8)
+            if profile.get("house_mult_alt") and rng.random() < 0.7:
+                lo_h, hi_h = profile["house_mult_alt"]
+            e["households"] = [[list(h), tot * rng.uniform(lo_h, hi_h)] for h in sorted(hh)]
     if kind == "rebuild":
         e["tau"] = rng.choice(profile.get("reb_tau") or [dt * 5, dt * 20, 60, 365])
         ns = rng.randint(1, min(3, len(t["sectors"])))
@@ -270,7 +273,8 @@ PROFILES = {
     "recover": dict(events=(1, 3), kinds=["recovery", "arbitrary"], horizon=(10, 25)),
     # small, quickly rebuilt damages: events finish while others are still rebuilding / start later
     "rebuild_finish": dict(events=(2, 4), kinds=["rebuild", "rebuild", "rebuild", "recovery"], horizon=(30, 60),
-                           p_house=0.5, reb_tau=[1, 2, 3], frac_hi=0.05, dt=1, emf_same=False),
+                           p_house=0.8, reb_tau=[1, 2, 3], frac_lo=2e-6, frac_hi=2e-3, dt=1, emf_same=False,
+                           house_mult_alt=(3.0, 30.0)),
     # strong, quickly recovered shocks followed by a long tail: capacity is back (no capacity
     # loss) while overproduction factors are still uneven
     "aftermath": dict(events=(1, 2), kinds=["recovery", "arbitrary", "recovery"], horizon=(25, 40),
